@@ -159,29 +159,22 @@ Definition add_tween_check (n : node) (under over : hint) : N :=
   else if hint_has tw_main under then 3%N
   else 0%N.
 
+(* _add_tween as a whole: refusal code, or the call its register() closure makes on the Tweens utility *)
+Definition add_tween_model (n : node) (f : N) (under over : hint) (explicit : bool) : N + tw_reg :=
+  let c := add_tween_check n under over in
+  if N.eqb c 0 then inr (if explicit then TRExplicit n f else TRImplicit n f under over) else inl c.
+Definition apply_reg (r : tw_reg) (t : tweens) : tweens :=
+  match r with
+  | TRExplicit n f => add_explicit n f t
+  | TRImplicit n f u o => add_implicit n f u o t
+  end.
+
 (* =====================================================================
    View derivers (config/views.py) *)
-Fixpoint text_leb (a b : text) : bool :=       (* Python str <= : code point order *)
-  match a, b with
-  | [], _ => true
-  | _ :: _, [] => false
-  | x :: a', y :: b' => if N.ltb x y then true else if N.ltb y x then false else text_leb a' b'
-  end.
-Fixpoint insert_sorted (x : text) (l : list text) : list text :=
-  match l with
-  | [] => [x]
-  | y :: r => if text_leb y x then y :: insert_sorted x r else x :: l    (* stable: after equal elements *)
-  end.
-Definition sort_texts (l : list text) : list text := fold_left (fun acc x => insert_sorted x acc) l [].
-
-(* as_sorted_tuple *)
-Definition as_sorted_tuple (h : hint) : list node :=
-  match h with HNone => [] | HOne u => [u] | HMany l => sort_texts l end.
-
 (* add_view_deriver argument processing: inl code = ConfigurationError
    (1 reserved name, 2 over INGRESS, 3 under VIEW, 4 under mapped_view);
-   inr (after, before) = arguments of derivers.add *)
-Definition deriver_args (n : node) (under over : hint) : N + (list node * list node) :=
+   inr (under, over) = the processed hints *)
+Definition deriver_hints (n : node) (under over : hint) : N + (list node * list node) :=
   if text_eqb n dv_ingress || text_eqb n dv_view then inl 1%N else
   let under := match under with HNone => HOne dv_default_under | _ => under end in
   let over := match over with HNone => HOne dv_default_over | _ => over end in
@@ -192,7 +185,14 @@ Definition deriver_args (n : node) (under over : hint) : N + (list node * list n
               then sort_texts (over ++ [dv_forced_over]) else over in
   if mem_text dv_view under then inl 3%N else
   if mem_text dv_forced_over under then inl 4%N else
-  inr (if dv_after_is_under then (under, over) else (over, under)).
+  inr (under, over).
+
+(* inr (after, before) = the arguments of derivers.add as the CODE passes them (keyword mapping = regenerated fact) *)
+Definition deriver_args (n : node) (under over : hint) : N + (list node * list node) :=
+  match deriver_hints n under over with
+  | inl c => inl c
+  | inr (u, o) => inr (if dv_after_is_under then (u, o) else (o, u))
+  end.
 
 Definition deriver_add (n : node) (v : N) (under over : hint) (s : sorter) : N + sorter :=
   match deriver_args n under over with
@@ -453,7 +453,8 @@ Definition derivers_scenario (adds : list (node * N * hint * hint)) : sorter * l
 
 Definition deriver_op (x : node * N * hint * hint) : list op :=
   let '(n, f, u, o) := x in
-  match deriver_args n u o with inr (a, b) => [OAdd n f (HMany a) (HMany b)] | inl _ => [] end.
+  (* the property's reading, independent of how the code maps its keywords: under X = after X, over X = before X *)
+  match deriver_hints n u o with inr (a, b) => [OAdd n f (HMany a) (HMany b)] | inl _ => [] end.
 Definition deriver_ops (adds : list (node * N * hint * hint)) : list op :=
   flat_map (fun d => let '(n, u, o) := d in deriver_op (n, 0%N, hint_of_fact u, hint_of_fact o)) dv_default_decls
   ++ flat_map deriver_op adds.
@@ -500,6 +501,22 @@ Fixpoint texts_eqb (a b : list text) : bool :=
 Definition put_codes (l : list N) : val := VL (map vN l).
 Definition put_events (l : list event) : val := VL (map put_event l).
 
+(* what the harness observes of a deriver scenario (tag 4) and of a predicate scenario (tag 6) *)
+Definition derivers_obs (s : sorter) : val :=
+  match apply_view_derivers s Base with
+  | inr h => VL [VI 0;
+                 put_pairs (match sorted s with Sorted u => u | _ => [] end);
+                 put_events (trace_user h)]
+  | inl e => VL [VI 1; put_outcome e]
+  end.
+Definition preds_obs (s : sorter) : val * val :=
+  let o := sorted s in
+  (put_outcome o, vtexts (match o with Sorted use => eval_order use | _ => [] end)).
+Definition judge_preds (k : pkind) (adds : list (node * N * hint * hint)) (o ev : val) : option bool :=
+  olet out := get_outcome o in olet ev := get_texts ev in
+  Some (judge cfg_plain (decls_of cfg_plain (pred_ops k adds)) out
+        && texts_eqb ev (match out with Sorted use => eval_order use | _ => [] end)).
+
 Definition run_C18 (v : val) : val :=
   ret_or_bad (
     match v with
@@ -518,24 +535,16 @@ Definition run_C18 (v : val) : val :=
     | VL [VI 4%Z; adds] =>
         olet adds := get_list_of get_tadd adds in
         let '(s, codes) := derivers_scenario adds in
-        Some (VL [put_codes codes;
-                  match apply_view_derivers s Base with
-                  | inr h => VL [VI 0;
-                                 put_pairs (match sorted s with Sorted u => u | _ => [] end);
-                                 put_events (trace_user h)]
-                  | inl e => VL [VI 1; put_outcome e]
-                  end])
+        Some (VL [put_codes codes; derivers_obs s])
     | VL [VI 5%Z; adds; obs] =>
         olet adds := get_list_of get_tadd adds in
         Some (vbool (judge_derivers adds obs))
     | VL [VI 6%Z; k; adds] =>
         olet k := get_pkind k in olet adds := get_list_of get_tadd adds in
-        let o := sorted (preds_scenario k adds) in
-        Some (VL [put_outcome o; vtexts (match o with Sorted use => eval_order use | _ => [] end)])
+        let '(o, ev) := preds_obs (preds_scenario k adds) in
+        Some (VL [o; ev])
     | VL [VI 7%Z; k; adds; VL [o; ev]] =>
         olet k := get_pkind k in olet adds := get_list_of get_tadd adds in
-        olet out := get_outcome o in olet ev := get_texts ev in
-        Some (vbool (judge cfg_plain (decls_of cfg_plain (pred_ops k adds)) out
-                     && texts_eqb ev (match out with Sorted use => eval_order use | _ => [] end)))
+        olet b := judge_preds k adds o ev in Some (vbool b)
     | _ => None
     end).
